@@ -2420,6 +2420,12 @@ def _handle_message_post(ctx):
         marks = [e for e in bl if e.data["op"] == "mark_seen"]
         goals.append(("told-to-filter-after-handling", z3.Implies(z3.And(dedup_on, has_id), z3.BoolVal(bool(marks)) if not marks else
                                                                   z3.Or(*[I.ops.eq(e.data["id"], mid) for e in marks]))))
+    if ctx.exc is None and invoked:
+        # ... and to the durable record, whatever the message type: several handler branches (polling re-queue, transient
+        # retry, stage-less fall-backs) deliberately leave the mark to the processor
+        dm = [e for e in ctx.st.effects if e.kind == "standalone" and e.data["op"] == "mark_message_processed"]
+        same = z3.Or(*[I.ops.eq(e.data["kwargs"].get("message_id", e.data["args"][0] if e.data["args"] else SNone), mid) for e in dm]) if dm else FALSE
+        goals.append(("durably-marked-after-handling", z3.Implies(z3.And(dedup_on, has_id, z3.Not(store_none)), same)))
     resets = [i for i, e in enumerate(ctx.st.effects) if e.kind == "bloom" and e.data["op"] == "reset"]
     for r in resets:
         hyd = [e for e in ctx.st.effects[r + 1:] if e.kind == "bloom" and e.data["op"] == "hydrate"]
@@ -2752,6 +2758,7 @@ def reset_units():
                              ("succeeded", "reset_stage_to_succeeded", [("end_time", ("int",))]), ("terminal", "reset_stage_to_terminal", [("end_time", ("int",))])):
         obls = [Obl(f"C15/reset-post/{fn}", _reset_post(which), when="any")]
         if which == "retry":
+            obls.append(Obl("C02/rearm/reset_stage_for_retry", _reset_post(which), when="any"))
             obls.append(Obl("C16/current-iteration/reset-clears-outputs", _reset_post(which), when="any"))
             obls.append(Obl("C04/join-fired/reset-is-the-only-clear", _reset_post(which), when="any"))
         out.append(Unit(prop="*", name=f"L3/{fn}", func=RM + fn, params=[("stage", ("obj", "StageExecution"))] + extra, names=STATUS_NAMES,
